@@ -456,6 +456,7 @@ pub fn random_dom(rng: &mut StdRng, spec: &DomSpec, known: &[KnownProp]) -> Weak
         created.push(r);
     }
     // properties (after creation so that Ref values can point anywhere, including forward)
+    let focus = if rng.gen_bool(0.4) { VariantType::SharedString } else { spec.types[rng.gen_range(0..spec.types.len())] };
     for r in created.clone() {
         let class = dom.get_by_ref(r).unwrap().class.to_string();
         let is_unknown = class.starts_with("VerifUnknown");
@@ -463,9 +464,12 @@ pub fn random_dom(rng: &mut StdRng, spec: &DomSpec, known: &[KnownProp]) -> Weak
         let mut used: Vec<String> = Vec::new();
         if is_unknown {
             for _ in 0..rng.gen_range(0..=spec.props_per_instance) {
-                let ty = spec.types[rng.gen_range(0..spec.types.len())];
+                // a per-DOM focus type makes several values of one type (equal SharedStrings, Refs to one
+                // target, Content objects ...) meet in one file
+                let ty = if rng.gen_bool(0.35) { focus } else { spec.types[rng.gen_range(0..spec.types.len())] };
                 if let Some(v) = value_of(ty, rng, &created, spec.xml_safe) {
-                    props.push((format!("U{:?}", ty), v));
+                    let suffix = if rng.gen_bool(0.3) { "_b" } else { "" };
+                    props.push((format!("U{:?}{}", ty, suffix), v));
                 }
             }
         } else {
@@ -509,4 +513,120 @@ pub fn is_superclass(sup: &str, class: &str) -> bool {
         cur = c.superclass.as_ref().and_then(|s| db.classes.get(s.as_ref()));
     }
     false
+}
+
+/// Structural corner cases the uniform generator reaches rarely: empty selections, deep chains, wide
+/// same-class columns, reference cycles and fan-in, equal values meeting in one file, long values.
+pub fn shaped_dom(rng: &mut StdRng, xml_safe: bool) -> WeakDom {
+    let mut dom = WeakDom::new(InstanceBuilder::new("DataModel"));
+    let root = dom.root_ref();
+    let shared_pool: Vec<SharedString> = vec![
+        SharedString::new(b"pool-a".to_vec()),
+        SharedString::new(vec![0, 1, 2, 3, 255]),
+        SharedString::new(Vec::new()),
+    ];
+    match rng.gen_range(0..10) {
+        0 => {}
+        1 => {
+            let mut parent = root;
+            for d in 0..rng.gen_range(8..14) {
+                parent = dom.insert(parent, InstanceBuilder::new(if d % 3 == 0 { "Folder" } else { "Model" }).with_name(format!("Depth{}", d)));
+            }
+        }
+        2 => {
+            let n = rng.gen_range(3..13);
+            let refs: Vec<Ref> = (0..n)
+                .map(|i| dom.insert(root, InstanceBuilder::new("VerifUnknownA").with_name(format!("Star{}", i)).with_property("UInt32", Variant::Int32(i as i32 * 1000 - 3))))
+                .collect();
+            for (i, r) in refs.iter().enumerate() {
+                dom.get_by_ref_mut(*r).unwrap().properties.insert("URef".into(), Variant::Ref(refs[(i + 1) % n]));
+            }
+        }
+        3 => {
+            let n = rng.gen_range(2..8);
+            let target = dom.insert(root, InstanceBuilder::new("Folder").with_name("Target"));
+            dom.get_by_ref_mut(target).unwrap().properties.insert("USelf".into(), Variant::Ref(target));
+            let mut parent = target;
+            for i in 0..n {
+                let r = dom.insert(parent, InstanceBuilder::new("ObjectValue").with_name(format!("Fan{}", i)).with_property("Value", Variant::Ref(target)));
+                if rng.gen_bool(0.5) {
+                    parent = r;
+                }
+            }
+        }
+        4 => {
+            for i in 0..rng.gen_range(2..6) {
+                let mut b = InstanceBuilder::new(if rng.gen_bool(0.5) { "VerifUnknownA" } else { "VerifUnknownB" }).with_name(format!("Dup{}", i));
+                for j in 0..rng.gen_range(1..4) {
+                    b.add_property(format!("USharedString{}", j), Variant::SharedString(shared_pool[rng.gen_range(0..shared_pool.len())].clone()));
+                }
+                b.add_property("UString", Variant::String("same text".to_string()));
+                b.add_property("UBinaryString", Variant::BinaryString(b"same bytes".to_vec().into()));
+                dom.insert(root, b);
+            }
+        }
+        5 => {
+            let len = if rng.gen_bool(0.15) { 66_000 } else { rng.gen_range(250..1200) };
+            let text: String = (0..len).map(|i| (b'a' + (i % 23) as u8) as char).collect();
+            let data: Vec<u8> = (0..len).map(|i| (i * 7 % 256) as u8).collect();
+            dom.insert(
+                root,
+                InstanceBuilder::new("VerifUnknownA")
+                    .with_name(text.clone())
+                    .with_property("UString", Variant::String(text))
+                    .with_property("UBinaryString", Variant::BinaryString(data.clone().into()))
+                    .with_property("USharedString", Variant::SharedString(SharedString::new(data))),
+            );
+        }
+        6 => {
+            let n = rng.gen_range(4..11);
+            for i in 0..n {
+                let mut b = InstanceBuilder::new("Part").with_name(format!("P{}", i));
+                b.add_property("Size", Variant::Vector3(vec3(rng)));
+                b.add_property("CFrame", Variant::CFrame(cframe_any(rng)));
+                b.add_property("Transparency", Variant::Float32(f32_any(rng)));
+                b.add_property("Anchored", Variant::Bool(rng.gen()));
+                if rng.gen_bool(0.5) {
+                    b.add_property("Color", Variant::Color3(color3_any(rng)));
+                }
+                dom.insert(root, b);
+            }
+        }
+        7 => {
+            let mut all = vec![root];
+            for i in 0..rng.gen_range(12..22) {
+                let parent = all[rng.gen_range(0..all.len())];
+                let class = ["Folder", "Model", "VerifUnknownA", "StringValue", "IntValue"][rng.gen_range(0..5)];
+                let mut b = InstanceBuilder::new(class).with_name(format!("W{}", i));
+                match class {
+                    "StringValue" => b.add_property("Value", Variant::String(string_any(rng, xml_safe))),
+                    "IntValue" => b.add_property("Value", Variant::Int64(i64_any(rng))),
+                    "VerifUnknownA" => b.add_property("UInt32", Variant::Int32(i32_any(rng))),
+                    _ => {}
+                }
+                all.push(dom.insert(parent, b));
+            }
+        }
+        8 => {
+            for i in 0..rng.gen_range(2..5) {
+                let class = ["UnionOperation", "MeshPart", "Model"][rng.gen_range(0..3)];
+                let prop = match class {
+                    "Model" => "ModelMeshData",
+                    _ => "PhysicalConfigData",
+                };
+                let mut b = InstanceBuilder::new(class).with_name(format!("Shared{}", i));
+                b.add_property(prop, Variant::SharedString(shared_pool[rng.gen_range(0..2)].clone()));
+                dom.insert(root, b);
+            }
+        }
+        _ => {
+            let long: String = (0..300).map(|i| if i % 50 == 49 { ' ' } else { 'n' }).collect();
+            for name in ["", " ", "dup", "dup", long.as_str(), "\u{1F600}\u{e9}", "a]]>b", "&<>\"'"] {
+                if rng.gen_bool(0.7) {
+                    dom.insert(root, InstanceBuilder::new("Folder").with_name(name));
+                }
+            }
+        }
+    }
+    dom
 }
